@@ -18,7 +18,7 @@ def run(facts, tier):
         ("pivot agreement", T.pivots, 2, "nth_element pivot index == index whose key becomes theta == new retained count"),
         ("emptiness/duplicates", T.emptiness_and_duplicates, 3, "hash_and_screen clears is_empty_ before any return; insert only after a failed find"),
         ("canonical chains", lambda fa: chains.obligations(fa, ["theta"]), 11, "typed update overloads follow the cross-language canonicalisation contract"),
-        ("hash function", lambda fa: [o for o in layout_rules.hash_constants_rule(fa) + layout_rules.hash_digest_rule(fa) if any(n in o["key"] for n in ("MurmurHash3_x64_128", "fmix64", "getblock64", "compute_hash"))], 6, "the retained values are MurmurHash3 hashes: literals and operator structure of the hash function, its block reader and finaliser equal the published definition"),
+        ("hash function", lambda fa: [o for o in layout_rules.hash_constants_rule(fa) + layout_rules.hash_digest_rule(fa) if any(n in o["key"] for n in ("MurmurHash3_x64_128", "fmix64", "getblock64", "compute_hash", "canonical_double"))], 6, "the retained values are MurmurHash3 hashes: literals and operator structure of the hash function, its block reader and finaliser and the -0.0 / NaN canonicaliser equal the published definition"),
         ("probe extent", lambda fa: hll_rules.probe_extent(fa, ("theta", "tuple")), 1, "the resized table is probed with the lg size it was allocated with"),
         ("rebuild precondition", T.rebuild_precondition, 2, "rebuild() is only called with strictly more than nominal-size entries"),
         ("builder/reset", T.builder_reset, 2, "reset() restores theta through the builder's helper; re-reads follow member resets"),
